@@ -140,7 +140,7 @@ Proof.
 Qed.
 
 Lemma flush_diags_incl tl st : incl (diags st) (diags (flush tl st)).
-Proof. unfold flush. destruct (0 <? bad st)%Z; cbn [add_diag diags raw_push]; auto. apply incl_refl. Qed.
+Proof. unfold flush. destruct (0 <? bad st)%Z; cbn [add_diag diags raw_push]; [apply incl_tl|]; apply incl_refl. Qed.
 
 Lemma push0_diags_incl tl st : incl (diags st) (diags (apply_act tl (APush 0 K_Unrec 0 None false []) st)).
 Proof. cbn [apply_act fold_left raw_push diags]. apply flush_diags_incl. Qed.
@@ -153,7 +153,7 @@ Proof.
   - intros E. apply IH in E. destruct E as (A & B & C0). split; [|split].
     + intros x Hx. apply A. now right.
     + eapply incl_tran; [apply push0_diags_incl|exact B].
-    + intros x [<-|Hx]; [|now apply C0]. eexists. split; [apply A; apply in_eq|]. now left.
+    + intros x [Ex|Hx]; [subst x|now apply C0]. eexists. split; [apply A; apply in_eq|]. now left.
 Qed.
 
 Lemma fold_unmatched_diags l : forall st,
@@ -164,7 +164,7 @@ Proof.
   - split; [apply incl_refl|intros o []].
   - destruct (IH (add_diag (unmatched C (b_kw o) (b_sp o) []) st)) as [A B]. split.
     + intros x Hx. apply A. cbn [add_diag diags]. now right.
-    + intros x [<-|Hx]; [|now apply B]. exists (unmatched C (b_kw x) (b_sp x) []).
+    + intros x [Ex|Hx]; [subst x|now apply B]. exists (unmatched C (b_kw o) (b_sp o) []).
       split; [apply A; cbn [add_diag diags]; now left|]. split; [apply unmatched_is|apply unmatched_has_sp].
 Qed.
 
